@@ -216,7 +216,8 @@ def run(chk, ctx):
                 'K: full sweeps with flags vs the Lean model. non-trivial = distinct (clause, d, subset/flags, varying)')
     chk.unproved = ['C04_isolated_marginal (marginal of a subset evolves as the subset alone) is validated numerically (L3) only; proved are the line-level ingredients '
                     '(non-corner lines conserve mass, decoupling a1 = c_{N-2} = 0, linearity)',
-                    'round-off: identities are exact in the model, checked at 1e-9..1e-10 on the float implementation']
+                    'round-off: identities are exact in the model, checked at 1e-9..1e-10 on the float implementation',
+                    'C04 theorems are stated on the functional form (stepFam/stepAxisFn); that the tabulated arrays equal it on every valid index is proved in Props/C03 (C03_tabulated_*)']
     from . import c03
     c03.k_sweep(chk, ctx, rng, 10 if q else 50, tier)
     l3_frozen_marginal(chk, ctx, rng, 16 if q else 96)
